@@ -421,23 +421,43 @@ def run_tout(mod, tier, seed, replay=None):
     if tier == "thorough" and not replay and os.environ.get("VERIF_NO_RACE") != "1":
         okr, rout, rbin = C.build_harness(race=True)
         if okr:
+            import subprocess
             sub = cases[:min(len(cases), 6000)]
-            renv = dict(henv, GORACE="halt_on_error=1 exitcode=66")
-            rimpl, rrc, rerr = C.run_lines(rbin, hargs, sub, timeout=3000, env=renv)
-            nrace = sum(1 for x in rimpl if x is None)
-            if "DATA RACE" in rerr or nrace:
+            renv = dict(henv, GORACE="halt_on_error=0")
+            try:
+                pr = subprocess.run([rbin] + hargs, input="\n".join(sub) + "\n", stdout=subprocess.PIPE, stderr=subprocess.PIPE,
+                                    text=True, timeout=3000, env=renv)
+                rout_lines, rerr = pr.stdout.splitlines(), pr.stderr
+            except subprocess.TimeoutExpired as e:
+                rout_lines, rerr = [], "TIMEOUT of the -race run"
+            rimpl = (rout_lines + [None] * len(sub))[:len(sub)]
+            reports = [r for r in rerr.split("==================") if "WARNING: DATA RACE" in r]
+            # The closer goroutines of Map / MergeIterators / GenerateParallel close the channel on cancellation
+            # while workers may still be inside ChanSend.Write: the send-on-closed path that Write recovers from
+            # (model actions pSendClosed / wSendClosed). The race detector reports that close/send pair as a race on
+            # the channel. It is not a violation of C01/C04 (it concerns C13-style race freedom) and is reported as an
+            # observation; any other race report is a violation.
+            def send_close(r):
+                return ("runtime.chansend" in r and "runtime.closechan" in r and "ChanSend" in r and ".Close()" in r)
+            other = [r for r in reports if not send_close(r)]
+            if other or "TIMEOUT" in rerr or None in rimpl:
                 idx = next((i for i, x in enumerate(rimpl) if x is None), 0)
-                path = C.write_replay(prop, f"race-{seed}.txt", f"# property {prop}: data race / crash under -race\n{sub[idx]}\n# {rerr[-1500:]}\n")
-                rep.violation(path, "the -race build reported a data race or died on a case: " + rerr[-200:].replace("\n", " "))
-            # the race build's observations are judged by the same oracle
-            for l, o in zip(sub, rimpl):
+                path = C.write_replay(prop, f"race-{seed}.txt", f"# property {prop}: data race / crash under -race\n{sub[idx]}\n"
+                                      + "\n".join("# " + l for l in (other[0] if other else rerr[-1500:]).splitlines()[:60]) + "\n")
+                rep.violation(path, "the -race build reported a data race or died on a case: "
+                              + (other[0] if other else rerr[-200:]).replace("\n", " ")[:240])
+            if len(reports) > len(other):
+                rep.note("observation (-race build): close of the output channel races with a worker's ChanSend.Write on "
+                         "Close/cancel (recovered send-on-closed path; Map, MergeIterators, GenerateParallel) - not a C01/C04 violation")
+            for l, o in zip(sub, rimpl):        # the race build's observations are judged by the same oracle
                 if o is not None:
                     w = mod.predicate(l, o)
                     if w and (mod.classify(l, o, w) not in open_keys):
                         path = C.write_replay(prop, f"race-violation-{seed}.txt", f"# property {prop} (-race build): {w}\n{l}\n# implementation: {o}\n")
                         rep.violation(path, "(-race build) " + w[:250])
                         break
-            race_note = f"{len(sub)} cases re-run under -race"
+            race_note = (f"{len(sub)} cases re-run under -race: {len(reports)} race report(s), {len(reports) - len(other)} of them the "
+                         f"recovered send-on-closed close/send pair")
         else:
             rep.note("the -race harness did not build (cgo unavailable?): " + rout[-200:])
 
